@@ -65,6 +65,9 @@ def one(rec, hub, seed, tier, i):
 
 
 def run(rec, hub, tier, seed, shard, nshards, budget):
+    from ..oracles import bystand
+
+    bystand.register(hub, "C09")
     S.register_compute(hub, PROPS)
     n = 1500 if tier == "quick" else 6000
     for k in range(n):
@@ -79,6 +82,9 @@ def run(rec, hub, tier, seed, shard, nshards, budget):
 
 
 def replay(rec, hub, case):
+    from ..oracles import bystand
+
+    bystand.register(hub, "C09")
     S.register_compute(hub, PROPS)
     rec.set_case(**case)
     one(rec, hub, case["seed"], case.get("tier", "quick"), case["idx"])
